@@ -56,6 +56,9 @@ def case_strategy(draw: Any) -> Dict[str, Any]:
         # whether the lifespan application stores anything: an empty state is copied per
         # connection just the same
         "boot_state": draw(st.sampled_from([True, True, False])),
+        # *.failed sent from a child task of the application's own task group: the error the
+        # server raises in that send reaches it wrapped in an exception group
+        "in_group": draw(st.sampled_from([False, False, True])),
     }
     if case["startup"] in ("raise", "return_early") and draw(st.booleans()):
         # the application leaves the lifespan scope at once, before the server has sent it
@@ -80,7 +83,8 @@ def lifespan_program(case: Dict[str, Any]) -> list:
     if s == "complete":
         prog.append(["send", {"type": "lifespan.startup.complete"}])
     elif s == "failed":
-        prog.append(["send", _failed("lifespan.startup.failed", case)])
+        prog.append(["send_in_group" if case.get("in_group") else "send",
+                     _failed("lifespan.startup.failed", case)])
         return prog
     elif s == "raise":
         prog.append(["raise", "ValueError"])
@@ -99,7 +103,8 @@ def lifespan_program(case: Dict[str, Any]) -> list:
     if e == "complete":
         prog.append(["send", {"type": "lifespan.shutdown.complete"}])
     elif e == "failed":
-        prog.append(["send", _failed("lifespan.shutdown.failed", case)])
+        prog.append(["send_in_group" if case.get("in_group") else "send",
+                     _failed("lifespan.shutdown.failed", case)])
     elif e == "raise":
         prog.append(["raise", "ValueError"])
     elif e == "hang":
